@@ -651,21 +651,23 @@ def sphere_test_misses(center, ssz, pnt, vec):
 
 
 def classify_multi_mismatch(g, body, pnt, vec):
-    """why mj_multiRay lost geom g (which mj_ray hits): reproduces the body-level bounding-sphere test of mju_singleRay
-    with the centre as coded (centre + xipos) and with the centre rotated into the world frame (ximat * centre + xipos)"""
+    """why mj_multiRay lost geom g (which mj_ray hits): reproduces the body-level bounding-sphere test of mju_singleRay.
+    The code (since fix 59e563301) rotates the BVH root centre into the world frame (ximat * centre + xipos):
+      "visual": that test misses and g is visual-only (contype = conaffinity = 0, hence not in the body BVH)   -> known finding B
+      "center": that test passes but the test with the unrotated centre (centre + xipos, the pre-fix code) misses -> regression of A
+    anything else is unexplained (None)."""
     if body["bvhadr"] < 0:
         return None
     h = body["half"]
     ssz = h[0] * h[0] + h[1] * h[1] + h[2] * h[2]
-    coded = [body["center"][i] + body["xipos"][i] for i in range(3)]
+    unrot = [body["center"][i] + body["xipos"][i] for i in range(3)]
     rc = matvec(body["ximat"], body["center"])
-    true = [rc[i] + body["xipos"][i] for i in range(3)]
-    if not sphere_test_misses(coded, ssz, pnt, vec):
-        return None
-    if not sphere_test_misses(true, ssz, pnt, vec):
+    rot = [rc[i] + body["xipos"][i] for i in range(3)]
+    rot_miss = sphere_test_misses(rot, ssz, pnt, vec)
+    if rot_miss:
+        return "visual" if (g["contype"] == 0 and g["conaffinity"] == 0) else None
+    if sphere_test_misses(unrot, ssz, pnt, vec):
         return "center"
-    if g["contype"] == 0 and g["conaffinity"] == 0:
-        return "visual"
     return None
 
 
@@ -892,8 +894,9 @@ def run_scenes(ctx, impl, drv, nscene, nsrc, nray, dev, found, stats, max_report
                                         % (rgid, g["body"], rd, rgid, dm, gid))
                             elif why == "center":
                                 key = "c16:multiray-body-sphere-center"
-                                what = ("mj_multiRay drops geom %d that mj_ray hits: the bounding-sphere cull of body %d in mju_singleRay uses "
-                                        "centre = bvh_aabb centre + xipos (not rotated by ximat) and misses, the rotated centre does not: "
+                                what = ("mj_multiRay drops geom %d that mj_ray hits: the bounding sphere of body %d around the rotated BVH centre "
+                                        "(ximat * centre + xipos) is hit, the one around the unrotated centre (centre + xipos, defect fixed by "
+                                        "59e563301) is missed: "
                                         "mj_ray (%r, %d), mj_multiRay (%r, %d)" % (rgid, g["body"], rd, rgid, dm, gid))
                             else:
                                 key = "c16:multiray-disagrees"
